@@ -5,6 +5,7 @@ package main
 import (
 	"fmt"
 	"go/token"
+	"sort"
 	"strings"
 
 	"golang.org/x/tools/go/ssa"
@@ -18,34 +19,116 @@ func init() {
 
 func r06_1(c *Ctx, r *Report) {
 	const rule = "R06.1"
-	r.rule(rule, "The four in-year views use one predicate. GetMonthsInYear, GetDayCount, GetMonth and GetLeapMonth each iterate lunarYear.months and admit a month iff m.GetYear() == lunarYear.year (plus their own conjunct): necessary for 'reported leap month and day counts match the table'.")
+	r.rule(rule, "The four in-year views use one predicate. GetMonthsInYear, GetDayCount, GetMonth and GetLeapMonth each iterate lunarYear.months; the body of the loop is followed by the evaluator for a month of the object's own year or of the neighbouring year, leap or not, with the requested number or another: the month is admitted (pushed, added to the count, returned) exactly when m.GetYear() == lunarYear.year and the view's own conjunct holds, GetLeapMonth returns the month number without its sign, and a month that is not admitted leaves the running result untouched. Necessary for 'reported leap month and day counts match the table'.")
 	for _, name := range []string{"GetMonthsInYear", "GetDayCount", "GetMonth", "GetLeapMonth"} {
 		fn := c.Fn(r, rule, "calendar.(*LunarYear)."+name)
 		if fn == nil {
 			continue
 		}
-		iter, pred := false, false
+		construct := fname(fn) + " filters the month table by m.GetYear() == year"
+		iter := false
 		for _, p := range c.eff.Of(fn).paramReads(0) {
 			if p == ".months" {
 				iter = true
 			}
 		}
-		for _, b := range fn.Blocks {
-			iff, ok := b.Instrs[len(b.Instrs)-1].(*ssa.If)
-			if !ok {
-				continue
-			}
-			bo, ok := iff.Cond.(*ssa.BinOp)
-			if !ok || bo.Op != token.EQL {
-				continue
-			}
-			_, f1, ok1 := getterField(c, bo.X)
-			r2, f2, ok2 := getterField(c, bo.Y)
-			if ok1 && ok2 && f1 == "LunarMonth.year" && f2 == "LunarYear.year" && r2 == ssa.Value(fn.Params[0]) {
-				pred = true
+		loops, _ := findLoops(fn)
+		if len(loops) != 1 || !iter {
+			r.bad(rule, construct, c.fnPos(fn), fmt.Sprintf("iterates months: %v; loops: %d (undecided = fail)", iter, len(loops)))
+			continue
+		}
+		li := loops[0]
+		var entry *ssa.BasicBlock
+		for _, sc := range li.header.Succs {
+			if li.body[sc] {
+				entry = sc
 			}
 		}
-		r.check(iter && pred, rule, fname(fn)+" filters the month table by m.GetYear() == year", c.fnPos(fn), fmt.Sprintf("iterates months: %v; year predicate: %v", iter, pred))
+		var problems []string
+		n := 0
+		for _, sameYear := range []bool{true, false} {
+			for _, isLeap := range []bool{true, false} {
+				for _, monthEq := range []bool{true, false} {
+					mYear, mMonth := int64(2020), int64(4)
+					if !sameYear {
+						mYear = 2019
+					}
+					if isLeap {
+						mMonth = -4
+					}
+					asked := mMonth
+					if !monthEq {
+						asked = 7
+					}
+					leaf := func(fr *evalFrame, v ssa.Value) (interface{}, bool) {
+						if fr.parent == nil && len(fn.Params) > 1 && v == ssa.Value(fn.Params[1]) {
+							return asked, true
+						}
+						if ta, ok := v.(*ssa.TypeAssert); ok && structName(ta.AssertedType) == "LunarMonth" {
+							return absPtr{"m", false}, true
+						}
+						if rc, f, ok := getterField(c, v); ok {
+							switch f {
+							case "LunarMonth.year":
+								return mYear, true
+							case "LunarMonth.month":
+								return mMonth, true
+							case "LunarMonth.dayCount":
+								return int64(29), true
+							case "LunarYear.year":
+								if ofr, o := fr.origin(rc); ofr.parent == nil && o == ssa.Value(fn.Params[0]) {
+									return int64(2020), true
+								}
+							}
+						}
+						return nil, false
+					}
+					ev := &evaluator{inline: inlineLibrary, leaf: leaf}
+					fr := &evalFrame{fn: fn, phiFrom: map[*ssa.BasicBlock]*ssa.BasicBlock{entry: li.header}}
+					res, outcome := ev.runFrame(fr, entry, func(b *ssa.BasicBlock) bool { return b == li.header })
+					n++
+					admitted := false
+					switch {
+					case outcome == "return":
+						admitted = true
+						if name == "GetLeapMonth" && (len(res) != 1 || res[0] != interface{}(int64(4))) {
+							problems = append(problems, fmt.Sprintf("a leap month %d is reported as %v", mMonth, res))
+						}
+						if name == "GetMonth" && (len(res) != 1 || res[0] != interface{}(absPtr{"m", false})) {
+							problems = append(problems, "the month returned is not the admitted one")
+						}
+					case outcome == fmt.Sprintf("stop:%d", li.header.Index):
+						for blk := range fr.phiFrom {
+							for _, ins := range blk.Instrs {
+								if call, ok := ins.(*ssa.Call); ok && call.Common().StaticCallee() != nil && call.Common().StaticCallee().Name() == "PushBack" {
+									admitted = true
+								}
+							}
+						}
+						for _, ins := range li.header.Instrs {
+							if phi, ok := ins.(*ssa.Phi); ok && isIntType(phi.Type()) && fr.resolve(phi) != ssa.Value(phi) {
+								admitted = true
+							}
+						}
+					default:
+						problems = append(problems, "the loop body could not be followed: "+outcome+" "+ev.fail)
+						continue
+					}
+					want := sameYear
+					switch name {
+					case "GetMonth":
+						want = sameYear && monthEq
+					case "GetLeapMonth":
+						want = sameYear && isLeap
+					}
+					if admitted != want {
+						problems = append(problems, fmt.Sprintf("a month of %s, leap=%v, requested number=%v: admitted=%v, expected %v", map[bool]string{true: "the own year", false: "the neighbouring year"}[sameYear], isLeap, monthEq, admitted, want))
+					}
+				}
+			}
+		}
+		sort.Strings(problems)
+		r.check(len(problems) == 0 && n == 8, rule, construct, c.fnPos(fn), fmt.Sprintf("%d abstract months followed through the loop body; deviations: %v", n, headList(dedupe(problems), 3)))
 	}
 }
 
